@@ -612,7 +612,9 @@ class ExcFlow(object):
             return ['JSONDecodeError', 'ValueError', 'RecursionError']
         if nm in ('load', 'safe_load') and (d.startswith('yaml.') or
                                             target.startswith('yaml')):
-            return ['YAMLError', 'UnicodeDecodeError']
+            # constructors of resolved scalars raise plain ValueError
+            # (a timestamp such as 2001-13-45)
+            return ['YAMLError', 'UnicodeDecodeError', 'ValueError']
         if nm in ('unpackb',) and (d.startswith('msgpack.') or
                                    target.startswith('msgpack')):
             return ['ValueError']
